@@ -4,6 +4,7 @@ from ..engine.core import AnalysisError, need
 from ..engine.astutil import (const_str, const_int, dotted, unparse, pmatch, walk_no_nested, find_matches, dump,
                               names_in, template_of)
 from ..engine.cfg import CFG, ENTRY, EXIT
+from ..engine.symx import run_paths
 from . import c02, c05
 from .interp import PYRTL, PYEVAL
 
@@ -107,6 +108,38 @@ def r08a(model, ctx):
               "the slot pending", f"{PYSIM}:{fu.lineno}")
 
 
+def _loop_paths(model, loop):
+    """path summaries of a scheduler loop body with PySimEngine helper methods expanded"""
+    from ..engine import refsem
+    inline = refsem.inline_table(model, PYSIM, "PySimEngine")
+    return run_paths(list(loop.body), inline=inline, depth=3)
+
+
+def _runs(p, var):
+    """index of the effect `var.run()` on a path, or None"""
+    for i, e in enumerate(p.effects):
+        if isinstance(e, ast.Call) and unparse(e.func) == f"{var}.run":
+            return i
+    return None
+
+
+def _run_once_ok(paths, var):
+    """every path that calls var.run() took the `var.runnable` test positively and cleared the flag before the call"""
+    n = 0
+    for p in paths:
+        i = _runs(p, var)
+        if i is None:
+            continue
+        n += 1
+        cleared = any(isinstance(e, ast.Assign) and unparse(e.targets[0]) == f"{var}.runnable" and
+                      isinstance(e.value, ast.Constant) and e.value.value is False for e in p.effects[:i])
+        guarded = any((unparse(t) == f"{var}.runnable" and pol) or (unparse(t) == f"not {var}.runnable" and not pol)
+                      for t, pol in p.conds)
+        if not (cleared and guarded):
+            return False, n
+    return n > 0, n
+
+
 def r08b(model, ctx):
     R = "R-08b"
     f = model.func(f"{PYSIM}::PySimEngine.step_design")
@@ -128,11 +161,8 @@ def r08b(model, ctx):
               "step_design must iterate until commit() reports that nothing changed", f"{PYSIM}:{f.lineno}")
     # process loop: runnable flag cleared before run
     pl = g.stmt[proc[0]]
-    t = unparse(pl)
-    ok = "if process.runnable:\n        process.runnable = False\n        process.run()" in t
-    ctx.check(ok, R, "step_design:run-once", "each runnable process runs once, flag cleared before run()",
-              "a runnable process must have its flag cleared before run() so that a wake-up during run() is not lost",
-              f"{PYSIM}:{pl.lineno}")
+    var = unparse(pl.target)
+    ok, _n = _run_once_ok(_loop_paths(model, pl), var)
     # trigger: sample before marking runnable
     fr = model.func(f"{PYSIM}::_PyTriggerState.run")
     g2 = CFG(fr, inline_closures=False)
@@ -193,13 +223,21 @@ def r08c(model, ctx):
     f = model.func(f"{PYSIM}::PySimEngine.step_design")
     pl = [s for s in ast.walk(f) if isinstance(s, ast.For) and unparse(s.iter) == "self._processes"][0]
     eff = set()
-    for n in ast.walk(pl):
-        if isinstance(n, (ast.Assign, ast.AugAssign)):
-            tg = n.targets if isinstance(n, ast.Assign) else [n.target]
-            for t in tg:
-                eff.add(unparse(t))
-        if isinstance(n, ast.Call) and isinstance(n.func, ast.Attribute):
-            eff.add(unparse(n.func) + "()")
+    var = unparse(pl.target)
+    for p in _loop_paths(model, pl):
+        for e in p.effects:
+            if isinstance(e, ast.Assign):
+                eff |= {unparse(t) for t in e.targets}
+            elif isinstance(e, ast.AugAssign):
+                eff.add(unparse(e.target))
+            elif isinstance(e, ast.Call):
+                eff.add(unparse(e.func) + "()")
+            else:
+                eff.add(type(e).__name__ + ":" + unparse(e)[:40])
+        for k, v in p.env.items():
+            if not k.startswith("__inl") and k != var:
+                eff.add(k)
+    eff = {x.replace(var + ".", "process.") for x in eff}
     ok = eff <= {"process.runnable", "process.run()"}
     ctx.check(ok, R, "step_design:process-loop-effects", f"effects: {sorted(eff)}",
               f"the body of the unordered process loop may only clear the process's flag and run it; found {sorted(eff)}",
@@ -231,13 +269,12 @@ def r08d(model, ctx):
               f"{[unparse(l.iter) for l in loops]}", f"{PYSIM}:{fa.lineno}")
     # R-08f part: rescan whenever a testbench ran
     if loops:
-        ifs = [s for s in loops[0].body if isinstance(s, ast.If) and unparse(s.test) == "testbench.runnable"]
-        ok = len(ifs) == 1
-        if ok:
-            b = ifs[0].body
-            top = [unparse(s) for s in b]
-            ok = "testbench.runnable = False" in top and "testbench.run()" in top and "converged = False" in top and \
-                top.index("testbench.runnable = False") < top.index("testbench.run()")
+        paths = _loop_paths(model, loops[0])
+        ok, n_run = _run_once_ok(paths, "testbench")
+        for p in paths:
+            if _runs(p, "testbench") is not None:
+                cv = p.env.get("converged")
+                ok = ok and isinstance(cv, ast.Constant) and cv.value is False
         ctx.check(ok, "R-08f", "advance:rescan-after-any-run", "converged = False whenever a testbench ran",
                   "whenever a testbench ran (whether or not it is still waiting afterwards) the list must be scanned "
                   "again before time advances: its last write may have woken an earlier testbench", f"{PYSIM}:{loops[0].lineno}")
@@ -255,6 +292,18 @@ def r08d(model, ctx):
     ok = "self._testbenches.append(" in unparse(fb) and "testbench=True" in unparse(fb)
     ctx.check(ok, R, "add_async_testbench", "appends a testbench-context process", "testbenches must be appended in order "
               "of addition", f"{PYSIM}:{fb.lineno}")
+
+
+REF_CLOCK_RUN = """
+self.runnable = False
+if self.initial:
+    self.initial = False
+    self.state.set_delay_waker(self.phase, waker)
+else:
+    clk_state = self.state.slots[self.slot]
+    clk_state.update(not clk_state.curr)
+    self.state.set_delay_waker(self.period // 2, waker)
+"""
 
 
 def r08e(model, ctx):
@@ -282,17 +331,12 @@ def r08e(model, ctx):
     ok = any(isinstance(s, ast.If) and unparse(s.test) == "phase is None" and unparse(s.body[0]) == "phase = period / 2" for s in ast.walk(fa))
     ctx.check(ok, R, "Simulator.add_clock:default-phase", "phase defaults to period / 2 (a Period, rounded)",
               "the default phase must be half a period", f"{CORE}:{fa.lineno}")
-    fr = model.func(f"{CLOCK}::PyClockProcess.run")
-    ifs = [s for s in fr.body if isinstance(s, ast.If) and unparse(s.test) == "self.initial"]
-    ok = len(ifs) == 1
-    if ok:
-        a = " ; ".join(unparse(s) for s in ifs[0].body)
-        b = " ; ".join(unparse(s) for s in ifs[0].orelse)
-        ok = "self.initial = False" in a and "self.state.set_delay_waker(self.phase, waker)" in a and "update(" not in a and \
-            "clk_state.update(not clk_state.curr)" in b and "self.state.set_delay_waker(self.period // 2, waker)" in b
-    ctx.check(ok, R, "PyClockProcess.run", "first wake-up after `phase` (no toggle), then toggle every period // 2",
-              "the clock process must first wait `phase` without toggling and then toggle and re-arm with the integer "
-              "half period `period // 2`", f"{CLOCK}:{fr.lineno}")
+    from ..engine import refsem
+    fr, paths = refsem.method_paths(model, f"{CLOCK}::PyClockProcess.run")
+    refsem.compare(ctx, R, "PyClockProcess.run", f"{CLOCK}:{fr.lineno}", "PyClockProcess.run", paths, [REF_CLOCK_RUN],
+                   fact="first wake-up after `phase` (no toggle), then toggle every period // 2",
+                   why="The clock process must first wait `phase` without toggling and then toggle and re-arm with the integer "
+                       "half period `period // 2`.")
     frs = model.func(f"{CLOCK}::PyClockProcess.reset")
     ok = "self.initial = True" in unparse(frs) and "self.runnable = True" in unparse(frs)
     ctx.check(ok, R, "PyClockProcess.reset", "re-arms the initial phase", "reset() must re-arm the initial phase wait",
@@ -306,11 +350,32 @@ def r08e(model, ctx):
     ok = not divs and any(unparse(s) == "self.now = nearest_deadline" for s in ast.walk(fad) if isinstance(s, ast.Assign))
     ctx.check(ok, R, "_PyTimeline.advance", "time jumps to the nearest deadline; no true division",
               "the timeline must move to exactly the nearest deadline and use integer arithmetic only", f"{PYSIM}:{fad.lineno}")
-    # nearest-deadline selection: strictly smaller deadline clears the set, equal joins it
+    # nearest-deadline selection: exactly the wakers whose deadline equals the minimum fire together. Two idioms are
+    # understood: the running-minimum loop (strictly smaller clears the set, equal joins it) and min() + a selection by
+    # equality; anything else is reported as not understood (exit 2), never as a violation.
     t = unparse(fad)
-    ok = "if nearest_deadline is None or deadline <= nearest_deadline:" in t and \
-        "if nearest_deadline is not None and deadline < nearest_deadline:\n                nearest_wakers.clear()" in t
-    ctx.check(ok, R, "_PyTimeline.advance:selection", "all wakers with the minimal deadline fire together",
+    loop_idiom = [n for n in ast.walk(fad) if isinstance(n, ast.For) and "self.wakers.items()" in unparse(n.iter) and
+                  any(isinstance(x, ast.Call) and unparse(x.func).endswith(".clear") for x in ast.walk(n))]
+    mins = [n for n in ast.walk(fad) if isinstance(n, ast.Call) and dotted(n.func) == "min"]
+    if loop_idiom:
+        ok = "if nearest_deadline is None or deadline <= nearest_deadline:" in t and \
+            "if nearest_deadline is not None and deadline < nearest_deadline:\n                nearest_wakers.clear()" in t
+        how = "running minimum: a strictly smaller deadline clears the set, an equal one joins it"
+    elif mins:
+        sel = [n for n in ast.walk(fad) if isinstance(n, (ast.SetComp, ast.ListComp, ast.GeneratorExp)) and
+               "self.wakers.items()" in unparse(n.generators[0].iter)]
+        need(len(sel) == 1 and len(mins) == 1, "_PyTimeline.advance: min()-based selection not understood")
+        tgt = sel[0].generators[0].target
+        need(isinstance(tgt, ast.Tuple) and len(tgt.elts) == 2, "_PyTimeline.advance: selection target")
+        wk, dl = unparse(tgt.elts[0]), unparse(tgt.elts[1])
+        minname = [unparse(s_.targets[0]) for s_ in ast.walk(fad) if isinstance(s_, ast.Assign) and s_.value is mins[0]]
+        ok = unparse(mins[0]) == "min(self.wakers.values())" and len(minname) == 1 and unparse(sel[0].elt) == wk and \
+            len(sel[0].generators[0].ifs) == 1 and \
+            unparse(sel[0].generators[0].ifs[0]) in (f"{dl} == {minname[0]}", f"{minname[0]} == {dl}")
+        how = "min(self.wakers.values()) and the wakers whose deadline equals it"
+    else:
+        raise AnalysisError("_PyTimeline.advance: nearest-deadline selection idiom not recognised")
+    ctx.check(ok, R, "_PyTimeline.advance:selection", how,
               "advance() must fire exactly the wakers whose deadline equals the minimum", f"{PYSIM}:{fad.lineno}")
     fd = model.func(f"{PYSIM}::_PyTriggerState.add_delay_waker")
     ok = "self._engine.state.set_delay_waker(trigger.interval.femtoseconds, waker)" in unparse(fd)
